@@ -14,12 +14,13 @@
 (* diagnostics and symbols every time the text is analysed.                *)
 (***************************************************************************)
 EXTENDS Integers, Sequences, FiniteSets, TLC, Json
-CONSTANTS Thresholds, Offsets, Unused, Kinds
+CONSTANTS Thresholds, Offsets, Unused, Kinds,
+          Shift      \* an offset o stands for o - Shift (a configuration file cannot hold negative numbers)
 VARIABLE d
-Init == d \in [t : Thresholds, o : Offsets, u : Unused, k : Kinds]
+Init == d \in {x \in [t : Thresholds, o : Offsets, u : Unused, k : Kinds] : x.t + x.o - Shift >= 1}
 Next == UNCHANGED d
 Spec == Init /\ [][Next]_d
-N == d.t + d.o
+N == d.t + d.o - Shift
 \* design level: the expected number of diagnostics of the expanded document (the harness reports a mismatch as "no verdict")
 Expected == [n |-> N, unused |-> d.u, kind |-> d.k, diags |-> N + d.u,
              errors |-> IF d.k \in {"unbound", "mismatch", "dupdecl"} THEN N ELSE 0]
